@@ -15,13 +15,14 @@ def norm_ty(ty):
     if t in _SCALARS:
         return t
     t = re.sub(r"for<[^>]*>\s*", '', t)
+    t = re.sub(r"::<'\w+(, '\w+)*>", '', t)    # lifetime-only turbofish
     t = re.sub(r"'\w+\s*,\s*", '', t)        # 'a, in generic lists
     t = re.sub(r"<'\w+>", '', t)             # <'a>
     t = re.sub(r"'\w+\s+", '', t)            # &'a T
     t = re.sub(r",\s*'\w+", '', t)
     t = re.sub(r"\s*\+\s*'\w+", '', t)
     t = re.sub(r'\s+', ' ', t).strip()
-    t = t.replace('::<', '<')
+    t = re.sub(r'::<(?!impl )', '<', t)
     return t
 
 @lru_cache(maxsize=50000)
@@ -40,7 +41,7 @@ def ty_kind(t):
         return 'fnptr'
     if t.startswith('dyn ') or t.startswith('impl '):
         return 'dyn'
-    if re.match(r'^[A-Z]\w{0,2}$', t) and t not in ('Vm', 'Fun', 'Io', 'Map', 'Box', 'Rc', 'Ref', 'Vec'):
+    if re.match(r'^[A-Z][A-Z0-9]?$', t) and t not in ('IO',):
         return 'param'
     if t.startswith('<'):
         return 'assoc'
@@ -159,4 +160,9 @@ def normalise_callee(c):
                 continue
         out.append(ch)
         i += 1
-    return ''.join(out)
+    r = ''.join(out)
+    # `module::<impl Type>::method` (inherent impl named by its type) -> `Type::method`
+    m = re.match(r'^(?:\w+::)*<impl ([A-Z][\w:]*)>::(\w+)$', r)
+    if m:
+        r = m.group(1) + '::' + m.group(2)
+    return r
